@@ -214,6 +214,14 @@ func oracleC04(r *RunCtx, rec *BlockRecord, t *TxInfo) {
 		}
 		if ds.Sign() < 0 {
 			r.Probe("supply_decreased_in_tx", true)
+			// "decreases only by amounts explicitly destroyed": a transaction that runs no code at all (a call without
+			// data to an address that has no code before or after, not a precompile) has nothing that could self-destruct,
+			// delete a funded account or call burn - whatever it moves must arrive
+			if to := t.EthTx.To(); to != nil && len(t.EthTx.Data()) == 0 && len(vb.CodeHash[*to]) == 0 && len(va.CodeHash[*to]) == 0 && !isCustomPrecompileIn(t.Obs.Before, *to) {
+				r.Count("o:c04_codeless_transfer_supply_checked")
+				r.Violate("C04", "supply_decrease_unexplained", map[string]string{"denom": denomClass(d), "tx": "plain_transfer"},
+					"supply of %s fell by %s in a transaction that executes no code (value %s to %s): nothing was explicitly destroyed", d, new(big.Int).Neg(ds), t.EthTx.Value(), to.Hex())
+			}
 		}
 	}
 	// the fee collector gains exactly what the sender paid in fees
@@ -445,3 +453,10 @@ func oracleC13(r *RunCtx, rec *BlockRecord, txs []*TxInfo) {
 func fmtAddr(a common.Address) string { return fmt.Sprintf("%x", a[:]) }
 
 func sortStrings(s []string) { sort.Strings(s) }
+
+// isCustomPrecompileIn: the address is a registered custom precompile in that state.
+func isCustomPrecompileIn(d *Dump, a common.Address) bool {
+	metas, _, _ := registryOf(d)
+	_, ok := metas[a]
+	return ok
+}
